@@ -144,7 +144,8 @@ impl MoveGen {
             };
         }
 
-        len
+        // promotions of the destination that is currently being expanded were already yielded
+        len.saturating_sub(NUM_PROMOTION_PIECES - self.promotions.len())
     }
 
     /// Never move to any position marked in the mask
